@@ -73,6 +73,11 @@ func handleStages(p *gen.Pkg) (stages, guards []string, err error) {
 			return false
 		}
 		switch x := n.(type) {
+		case *ast.AssignStmt:
+			// `n = 0`: the point after which the deferred function can no longer fall back
+			if p.Src(x) == "n = 0" {
+				stages = append(stages, "commit")
+			}
 		case *ast.IfStmt:
 			if strings.Contains(p.Src(x.Cond), "saltPool") || (x.Init != nil && strings.Contains(p.Src(x.Init), "saltPool")) {
 				guards = append(guards, p.Src(x))
@@ -140,6 +145,60 @@ func main() {
 		}
 		l.Raw("/-- property-relevant calls of ss2022.(*StreamServer).HandleStream in source order -/\ndef handleStages : List String := " + gen.LeanStrList(stages) + "\n")
 		l.Raw("/-- the if-statements of HandleStream that consult the salt pool -/\ndef saltPoolGuards : List String := " + gen.LeanStrList(guards) + "\n")
+		// the deferred fallback decision of HandleStream (first defer statement of the body)
+		hs, err := p.Func("*StreamServer", "HandleStream")
+		if err != nil {
+			return err
+		}
+		var deferSrc string
+		ndefer := 0
+		ast.Inspect(hs.Body, func(n ast.Node) bool {
+			if d, ok := n.(*ast.DeferStmt); ok {
+				ndefer++
+				deferSrc = p.Src(d)
+			}
+			return true
+		})
+		if ndefer != 1 {
+			return fmt.Errorf("HandleStream: %d defer statements, expected the one fallback decision", ndefer)
+		}
+		l.StrDef("srcHandleDefer", deferSrc, "the deferred function of ss2022.(*StreamServer).HandleStream")
+		// every assignment to n in HandleStream: the first read and the commit
+		var nAssign []string
+		ast.Inspect(hs.Body, func(n ast.Node) bool {
+			if a, ok := n.(*ast.AssignStmt); ok {
+				for _, lhs := range a.Lhs {
+					if p.Src(lhs) == "n" {
+						nAssign = append(nAssign, p.Src(a))
+					}
+				}
+			}
+			return true
+		})
+		l.Raw("/-- every assignment to `n` (bytes of the first read) in HandleStream -/\ndef handleAssignsN : List String := " + gen.LeanStrList(nAssign) + "\n")
+		// UDP side of the same constant: what NewUDPServer advertises as MinNATTimeout
+		nu, err := p.Func("", "NewUDPServer")
+		if err != nil {
+			return err
+		}
+		var minNAT ast.Expr
+		nMin := 0
+		ast.Inspect(nu.Body, func(n ast.Node) bool {
+			if kv, ok := n.(*ast.KeyValueExpr); ok && p.Src(kv.Key) == "MinNATTimeout" {
+				minNAT = kv.Value
+				nMin++
+			}
+			return true
+		})
+		if nMin != 1 {
+			return fmt.Errorf("NewUDPServer: %d MinNATTimeout fields, expected 1", nMin)
+		}
+		v, ok := p.EvalInt(minNAT)
+		if !ok {
+			return fmt.Errorf("NewUDPServer: MinNATTimeout %q is not a constant", p.Src(minNAT))
+		}
+		l.StrDef("udpMinNATTimeoutExpr", p.Src(minNAT), "ss2022.NewUDPServer: UDPSessionServerInfo.MinNATTimeout, as written")
+		l.NatDef("udpMinNATTimeout", v, "ss2022.NewUDPServer: UDPSessionServerInfo.MinNATTimeout, evaluated (ns)")
 		for _, f := range []struct{ lean, recv, name string }{
 			{"srcPruneExpired", "*SaltPool", "pruneExpired"},
 			{"srcInsert", "*SaltPool", "insert"},
